@@ -136,6 +136,21 @@ CHECKS = {
              "strings (all in thorough), on random longer strings and on all hashed settings; preferred method OK and equal to NULL prefix.",
         note="Exhaustive for the enumerated spaces only; build configurations are C19's.",
         design="§4 C18"),
+    "C19": dict(
+        category="exploration",
+        technique="runtime monitoring over build configurations: headers generated by the repository's scripts per selection, library rebuilt and linked with the worker, corpus compared with the full build",
+        text="All 16 singletons, the named groups, the full set, leave-one-out and guard-isolating selections (plus 100 random subsets in thorough) "
+             "built; enabled methods gave the full build's results, disabled tags were refused everywhere, default prefix / preferred method / "
+             "CRYPT_GENSALT_IMPLEMENTS_DEFAULT_PREFIX matched the strongest enabled default-capable method.",
+        note="2^16 subsets are sampled; configurations compiled at -O1 without sanitizers; obsolete-api/failure-token options not varied.",
+        design="§4 C19"),
+    "C20": dict(
+        category="other",
+        technique="runtime monitoring: differential execution of a released-ABI client (compat symbol versions, glibc-size crypt_data with canary) against the fresh shared library + layout and symbol-version probes",
+        text="struct layout and constants equal the released header's and the stated values; every (symbol, version) the released libcrypt.so.1 "
+             "defines is defined; the old client's transcript is identical with the fresh library and compat symbols equal their modern counterparts.",
+        note="x86-64 glibc only; glibc-era binaries are emulated via .symver, not available.",
+        design="§4 C20"),
 }
 
 NOT_YET = {}
